@@ -170,7 +170,31 @@ func c19CheckDecoded(in *inode, m c19Meta, ft fileType) {
 	vp.Assert(st.Flags.AppendOnly == m.appendOnly, "StatT.Flags.AppendOnly")
 }
 
-// c19Roundtrip: inode with arbitrary metadata -> toBytes -> documented fields -> inodeFromBytes -> same metadata.
+// c19Encode: inode with arbitrary metadata -> toBytes -> the documented on-disk fields.
+func c19Encode(ft fileType) {
+	m := c19MetaIn("i")
+	sb := c19SB()
+	in := c19Inode(m, ft)
+	if ft == fileTypeSymbolicLink {
+		vp.Assume(m.size >= 60)
+	}
+	b := in.toBytes(sb)
+	vp.Assert(len(b) == 256, "inode image has the superblock's inode size")
+	c19CheckRaw(b, m, ft)
+	if m.sec[2] < 0 {
+		vp.Cover("mtime before 1970")
+	}
+	if m.sec[2] >= 1<<33 {
+		vp.Cover("mtime after 2242 (epoch bits = 3)")
+	}
+	vp.Cover("encoded")
+}
+
+func VP_C19_ext4_inode_encode_file()    { c19Encode(fileTypeRegularFile) }
+func VP_C19_ext4_inode_encode_dir()     { c19Encode(fileTypeDirectory) }
+func VP_C19_ext4_inode_encode_symlink() { c19Encode(fileTypeSymbolicLink) }
+
+// c19Roundtrip: inode with arbitrary metadata -> toBytes -> inodeFromBytes -> same metadata.
 func c19Roundtrip(ft fileType) {
 	m := c19MetaIn("i")
 	for k := range m.ptr {
@@ -182,8 +206,6 @@ func c19Roundtrip(ft fileType) {
 	sb := c19SB()
 	in := c19Inode(m, ft)
 	b := in.toBytes(sb)
-	vp.Assert(len(b) == 256, "inode image has the superblock's inode size")
-	c19CheckRaw(b, m, ft)
 	out, err := inodeFromBytes(b, sb, m.number)
 	vp.Assert(err == nil, "the encoded inode decodes (checksum valid)")
 	if err != nil {
